@@ -65,7 +65,7 @@ ASSUMPTIONS = [
     "contributes the poison-record / environment dimension and the conservation oracle",
 ]
 PROBES = [
-    "torch_tool", "kaldi_tool", "raw_no_computer", "preemphasis", "dither_determinism", "postprocess",
+    "torch_tool", "kaldi_tool", "raw_no_computer", "preemphasis", "dither_determinism", "postprocess", "standardize_global_stats", "standardize_global_one_frame",
     "multichannel_select", "too_short_utterance", "zero_length_utterance", "yaml_config", "json_file_config",
     "workers_sim", "si_computer", "include_energy_empty", "kaldi_default_channel0", "order_probe",
     "utterance_longer_than_2_20", "same_process_config_rewritten", "silent_stretch", "id_starting_with_hash",
@@ -134,7 +134,11 @@ def generate(rng, tier, k):
     if cfg is not None and rng.random() < 0.4:
         post.append(rng.choice(({"name": "deltas", "num_deltas": rng.choice((1, 2))},
                                 {"name": "stack", "num_vectors": rng.choice((2, 3))},
-                                {"name": "standardize"})))
+                                {"name": "standardize"},
+                                # global statistics from a file (written by the harness), with and without variance
+                                # normalisation: defined for any number of frames, one included
+                                {"name": "standardize", "global": {"seed": rng.randrange(1 << 30), "count": rng.choice((1, 7, 1000))},
+                                 "norm_var": rng.random() < 0.6})))
         if rng.random() < 0.3:
             post.append({"name": "deltas", "num_deltas": 1})
     if tool == "torch":
@@ -151,7 +155,7 @@ def generate(rng, tier, k):
     if post:
         need = _min_len_for_frames(cfg)
         one = _min_len_for_frames(cfg, 0)
-        only_linear = all(p["name"] in ("deltas",) for p in post)
+        only_linear = all(p["name"] in ("deltas",) or "global" in p for p in post)
         for u in corpus:
             if only_linear and rng.random() < 0.25:
                 # exactly one or two frames: enough for deltas (edge padding), a boundary for "is there anything to process"
@@ -227,6 +231,53 @@ def _write_kaldi_corpus(corpus, d):
             w.close()
             f.write("%s %s\n" % (u["id"], p))
     return scp
+
+
+def _global_stats(p, ncoef):
+    """(mean, std, count) of a generated global-statistics recipe."""
+    g = np.random.default_rng(int(p["global"]["seed"]))
+    mu = g.standard_normal(ncoef) * 2.0 - 4.0  # log-energies: negative sums
+    sd = 0.5 + 2.5 * g.random(ncoef)
+    return mu, sd, int(p["global"]["count"])
+
+
+def _materialise(scn, d):
+    """Scenario whose post-processor entries are what the tool is given: a generated `global` statistics recipe becomes
+    an `rfilename` pointing at a 2 x (ncoef + 1) float64 .npy file (sums | count ; sums of squares | 0)."""
+    post = scn.get("post") or []
+    if not any("global" in p for p in post):
+        return scn
+    out = []
+    for i, p in enumerate(post):
+        if "global" not in p:
+            out.append(p)
+            continue
+        assert i == 0, "global statistics only as the first post-processor (dimension = num_coeffs)"
+        ncoef = int(configs.build(scn["cfg"]).num_coeffs)
+        mu, sd, cnt = _global_stats(p, ncoef)
+        st = np.zeros((2, ncoef + 1), dtype=np.float64)
+        st[0, :-1] = mu * cnt
+        st[0, -1] = cnt
+        st[1, :-1] = (sd * sd + mu * mu) * cnt
+        path = os.path.join(d, "stats_%d.npy" % i)
+        if not os.path.exists(path):
+            np.save(path, st)
+        q = {k: v for k, v in p.items() if k != "global"}
+        q["rfilename"] = path
+        out.append(q)
+    return dict(scn, post=out)
+
+
+def _reference_post(scn):
+    """Post-processor list for the reference pipeline: generated global statistics are applied from their recipe."""
+    out = []
+    for p in scn.get("post") or []:
+        if "global" in p:
+            mu, sd, _ = _global_stats(p, int(configs.build(scn["cfg"]).num_coeffs))
+            out.append({"name": "standardize_explicit", "mean": mu, "std": sd, "norm_var": p.get("norm_var", True)})
+        else:
+            out.append(p)
+    return out
 
 
 def _argv(scn, d, run, outname):
@@ -396,7 +447,8 @@ def _run(scn, d, res, tr):
     outs = []
     for ri, run in enumerate(scn["runs"]):
         outname = "out%d" % ri
-        argv = _argv(scn, d, run, outname)
+        real = _materialise(scn, d)
+        argv = _argv(real, d, run, outname)
         if run["syntax"] == "yaml":
             res.probe("yaml_config")
         elif run["syntax"] == "json":
@@ -467,7 +519,7 @@ def _run(scn, d, res, tr):
                     res.probe("multichannel_select")
                     if ch in (-1, None):
                         res.probe("kaldi_default_channel0")
-                ref = refpipe.reference(x, cfg, scn.get("pre", []), scn.get("post", []), ch)
+                ref = refpipe.reference(x, cfg, scn.get("pre", []), _reference_post(scn), ch)
                 got_a = stored[name(u["id"])]
                 if cfg is not None and use_log:
                     base, sig = refpipe.reference(x, cfg, scn.get("pre", []), [], ch, want_signal=True)
@@ -489,7 +541,12 @@ def _run(scn, d, res, tr):
                     res.violate("DTYPE", "features of %s stored as %s, expected float32" % (u["id"], got_a.dtype),
                                 phase="values", **facts)
                     return
-                if any(p["name"] == "standardize" for p in scn.get("post", [])):
+                glob = [p for p in scn.get("post", []) if "global" in p]
+                if glob:
+                    res.probe("standardize_global_stats")
+                    if ref.shape[0] == 1:
+                        res.probe("standardize_global_one_frame")
+                elif any(p["name"] == "standardize" for p in scn.get("post", [])):
                     if ref.shape[0] < 2:
                         continue
                     # compare only where the zero-variance replacement cannot be straddled
@@ -504,7 +561,10 @@ def _run(scn, d, res, tr):
                     # linear post-processing of log features: allow what single precision does to the smallest
                     # coefficient of a frame (times the gain of the post-processors)
                     gain = 2.0
-                    if any(p["name"] == "standardize" for p in scn["post"]):
+                    if glob:
+                        if glob[0].get("norm_var", True):
+                            gain = 2.0 / float(_global_stats(glob[0], base.shape[1])[1].min())
+                    elif any(p["name"] == "standardize" for p in scn["post"]):
                         sd = base.astype(np.float64).std(axis=0) if base.shape[0] > 1 else np.ones(1)
                         gain = 2.0 / max(float(sd.min()), 0.03)
                     bad = refpipe.close(got_a, ref, True, slack=gain * refpipe.log_slack(base, amp, up))
